@@ -67,6 +67,8 @@ type modelState struct {
 	fpSh           map[int]fpShadow
 	fpShB          *smt.Builder
 	fpOpaque       map[int]bool
+	hmsOf          map[[3]int]*smt.Term
+	hmsB           *smt.Builder
 	civilMemo      map[int][3]*smt.Term
 	pureMemo       map[*ssa.BasicBlock]bool
 	IfConverted    int
